@@ -148,6 +148,51 @@ def check_member(spec, build_member, evs, fillable, args, menu, tier):
     return out
 
 
+def check_built(spec, ha, hb):
+    """Containers assembled from separately aggregated pieces (Stack.build, Fraction.build), alone and as a member of an
+    UntypedLabel: the clone equals the original and merges exactly like it."""
+    import histogrammar as hg
+
+    args = {"spec": spec, "ha": core.show_evs(ha), "hb": core.show_evs(hb)}
+    out = []
+
+    def make():
+        st = hg.Stack.build(core.mk(spec, ha), core.mk(spec, hb))
+        fr = hg.Fraction.build(core.mk(spec, ha), core.mk(spec, hb))
+        return [("Stack.build", st), ("Fraction.build", fr),
+                ("UntypedLabel of Stack.build and Fraction.build", hg.UntypedLabel(s=st, f=fr))]
+
+    try:
+        for (nm, o), (_, o2) in zip(make(), make()):
+            d0 = o.toJson()
+            c = pickle.loads(pickle.dumps(o))
+            if not (c == o) or not (o == c) or (c != o) or (o != c):
+                out.append(FW.violation(PROP, "built", "clone of %s != original" % nm, "not-equal", args, {}))
+            d = C.diff(c.toJson(), d0, tol_keys=())
+            if d:
+                out.append(core.v_diff(PROP, "built", "clone of %s serialises differently" % nm, d, c.toJson(), args))
+            want = (o + o2).toJson()
+            for what, f in (("clone+clone", lambda: c + c), ("original+clone", lambda: o + c), ("clone+original", lambda: c + o)):
+                try:
+                    m = f()
+                except Exception as e:
+                    out.append(core.v_exc(PROP, "built", "%s of %s raised (original + an equal original does not)" % (what, nm),
+                                          e, args))
+                    continue
+                d = C.diff(m.toJson(), want, tol_keys=())
+                if d:
+                    out.append(core.v_diff(PROP, "built", "%s of %s differs from original+original" % (what, nm), d, m.toJson(),
+                                           args))
+                elif what == "clone+clone" and not (m == o + o2):
+                    out.append(FW.violation(PROP, "built", "clone+clone of %s != original+original" % nm, "not-equal", args, {}))
+            d = C.diff(o.toJson(), d0, tol_keys=())
+            if d:
+                out.append(core.v_diff(PROP, "built", "%s changed by pickling / merging with its clone" % nm, d, o.toJson(), args))
+    except Exception as e:
+        out.append(core.v_exc(PROP, "built", "pickling an assembled container raised", e, args))
+    return out
+
+
 def make_menu(spec, tier):
     recs = A.records(spec, "core", cap=4)
     events = [(r, 1.0) for r in recs] + [(recs[0], 0.5)]
@@ -190,6 +235,12 @@ def _tree(task):
         pass
 
     st = X.bfs(spec, menu, H, P, on_state, on_error)
+    if not has_transform(spec):
+        hs = [[], [menu["events"][0]], [menu["events"][1 % len(menu["events"])], menu["events"][-1]]]
+        for ha, hb in itertools.product(hs, hs):
+            acc.add(check_built(spec, ha, hb))
+            acc.n("assembled_containers_checked", 3)
+            acc.n("clones_checked", 3)
     acc.n("states", st["states"])
     acc.n("transitions", st["transitions"])
     acc.sample({"tree": S.sid(spec), "history": X.show_history([("fill", 0, 0), ("json", 0)], menu),
@@ -246,7 +297,9 @@ def run(tier, seed):
                 "histories of fill, +, JSON reload and * on a pool; for every distinct (observable state, fillable?) of "
                 "every pool member: clone = loads(dumps(h)) must equal h, serialise identically, leave h's object graph "
                 "unchanged, survive a second generation; then every continuation of <=2 events from {3 fill events, a "
-                "weighted numpy batch, += a state} applied to clone and original must keep them identical and ==",
+                "weighted numpy batch, += a state} applied to clone and original must keep them identical and ==; containers "
+                "assembled by Stack.build / Fraction.build from 3x3 pairs of states (alone and inside an UntypedLabel): clone "
+                "== original, clone+clone / original+clone == original+original",
         "exhaustive": True,
         "bounds": {"trees": len(ts), "H": 2, "P": "2 (quick) / 3"},
     }
@@ -257,6 +310,8 @@ def run(tier, seed):
 
 def replay(driver, args):
     spec = args["spec"]
+    if driver == "built":
+        return check_built(spec, core.unshow_evs(args["ha"]), core.unshow_evs(args["hb"]))
     menu = menu_from_args(args["menu"])
     hist = [tuple(op) for op in args["history"]]
     i = args["member"]
